@@ -502,3 +502,53 @@ charnos_head = Unit(
 charnos_head.key_suffix = "start-node"
 
 UNITS += [charnos_head, charnos_tail]
+
+
+# ----------------------------------------------------------------------------- line table against the PARSER, on representatives
+def gen_line_table(g):
+    """core._get_line_start_charnos must number lines the way the parser does (that is the link between a node's lineno and a character
+    offset).  The unit above proves the prefix-sum shape GIVEN the line splitting; here the real function is run on one text per kind of
+    line terminator / separator-like character and compared with what CPython's own parser reports: statement k of the text starts at the
+    offset the table gives for the line number the parser assigned to it.  Robust against any re-implementation of the splitting."""
+    import ast as _ast
+    import z3
+    from pyvc.replay import call_real
+    from pyvc.unit import find_def, segment_sha
+    fn, text = find_def("core", "_get_line_start_charnos")
+    g.sha = segment_sha(text, fn)
+    g.lines = [fn.lineno, fn.end_lineno]
+    seps = {"lf": "\n", "crlf": "\r\n", "cr": "\r", "lf-then-cr": None, "crlf-with-one-stray-cr": None, "ff-inside-a-line": None, "vt-inside-a-line": None, "u2028-in-a-string": None,
+            "x1c-x1d-x1e-in-a-string": None, "x85-in-a-string": None, "cr-inside-a-triple-quoted-string": None, "blank-lines": None, "no-final-terminator": None, "crlf-no-final-terminator": None,
+            "backslash-continuation": None, "only-one-line": None, "empty": None, "form-feed-line": None}
+    stmts = [f"v{k} = {k}" for k in range(6)]
+    texts = {
+        "lf": "\n".join(stmts) + "\n", "crlf": "\r\n".join(stmts) + "\r\n", "cr": "\r".join(stmts) + "\r",
+        "lf-then-cr": stmts[0] + "\n" + stmts[1] + "\r" + stmts[2] + "\n" + stmts[3] + "\r" + stmts[4] + "\n",
+        "crlf-with-one-stray-cr": stmts[0] + "\r\n" + stmts[1] + "\r" + stmts[2] + "\r\n" + stmts[3] + "\r\n",
+        "ff-inside-a-line": stmts[0] + "\n" + "v1 = 1 \x0c + 1\n" + stmts[2] + "\n", "vt-inside-a-line": stmts[0] + "\n" + "v1 = 1 \x0b + 1\n" + stmts[2] + "\n",
+        "u2028-in-a-string": stmts[0] + "\n" + "s = 'a b c'\n" + stmts[2] + "\n", "x1c-x1d-x1e-in-a-string": stmts[0] + "\n" + "s = 'a\x1cb\x1dc\x1ed'\n" + stmts[2] + "\n",
+        "x85-in-a-string": stmts[0] + "\n" + "s = 'a\x85b'\n" + stmts[2] + "\n", "cr-inside-a-triple-quoted-string": 's = """a\rb"""\n' + stmts[1] + "\n" + stmts[2] + "\n",
+        "blank-lines": stmts[0] + "\n\n\n" + stmts[1] + "\r\n\r\n" + stmts[2] + "\n", "no-final-terminator": "\n".join(stmts[:3]), "crlf-no-final-terminator": "\r\n".join(stmts[:3]),
+        "backslash-continuation": "v0 = 1 + \\\n    2\n" + stmts[1] + "\n", "only-one-line": "v0 = 0", "empty": "", "form-feed-line": stmts[0] + "\n\x0c\n" + stmts[1] + "\n",
+    }
+    res = call_real("from pyrefact import core\nprint(json.dumps({k: list(core._get_line_start_charnos(v)) for k, v in payload.items()}))\n", texts, timeout=60)
+    for lab in seps:
+        src = texts[lab]
+        table = res.get(lab)
+        try:
+            tree = _ast.parse(src)
+        except SyntaxError:
+            continue
+        ok = isinstance(table, list)
+        witness = None
+        for node in tree.body:
+            seg = _ast.get_source_segment(src, node)
+            want = src.index(seg.splitlines()[0] if seg else "")       # first occurrence: every statement text is unique in these sources
+            if not ok or node.lineno - 1 >= len(table) or table[node.lineno - 1] + node.col_offset != want:
+                ok = False
+                witness = (node.lineno, want)
+                break
+        g.oblige("table", f"line-table-agrees-with-the-parser:{lab}", [], z3.BoolVal(bool(ok)), fn.lineno,
+                 replay=lambda m, src=src, table=table, witness=witness: {"reproduced": True, "input": f"core._get_line_start_charnos({src!r})", "observed": table,
+                                                                          "required": f"entry lineno-1 + col_offset is the offset of each statement; fails for (lineno, offset) = {witness}"})
+    g.assumptions.add("one text per kind of line terminator and per separator-like character that str.splitlines treats as a line break but the parser does not")
